@@ -428,4 +428,56 @@ theorem psave_all (f : PFiles) (pinfos : List (Nat × List Nat)) :
   rw [foldl_writeTmp]
   simp
 
+/-! ### peers after importing an arbitrary file -/
+
+theorem lastIdx_isSome_of_acc (p : Nat) : ∀ (l : List Line) (i : Nat) (acc : Option Nat), acc.isSome = true →
+    (lastIdx p l i acc).isSome = true := by
+  intro l
+  induction l with
+  | nil => intro i acc h; exact h
+  | cons x t ih =>
+    intro i acc h
+    simp only [lastIdx]
+    apply ih
+    cases x with
+    | full a q => by_cases hq : q = p <;> simp [hq, h]
+    | _ => exact h
+
+theorem lastIdx_isSome_of_mem (p a : Nat) : ∀ (l : List Line) (i : Nat) (acc : Option Nat), Line.full a p ∈ l →
+    (lastIdx p l i acc).isSome = true := by
+  intro l
+  induction l with
+  | nil => intro i acc h; cases h
+  | cons x t ih =>
+    intro i acc h
+    simp only [lastIdx]
+    rcases List.mem_cons.1 h with rfl | h
+    · apply lastIdx_isSome_of_acc
+      simp
+    · exact ih _ _ h
+
+theorem full_mem_load {a p : Nat} {file : List Line} : Line.full a p ∈ load file ↔ Line.full a p ∈ file := by
+  unfold load
+  rw [List.mem_filter]
+  exact ⟨fun h => h.1, fun h => ⟨h, rfl⟩⟩
+
+theorem mem_importedAddrs {self p a : Nat} {L : List Line} :
+    a ∈ importedAddrs self L p ↔ Line.full a p ∈ L ∧ p ≠ self := by
+  unfold importedAddrs
+  rw [List.mem_filterMap]
+  constructor
+  · rintro ⟨l, hl, h⟩
+    cases l with
+    | full b q =>
+      by_cases hc : q = p ∧ p ≠ self
+      · obtain ⟨rfl, hps⟩ := hc
+        simp only [hps, ne_eq, not_false_eq_true, and_self, if_true, Option.some.injEq] at h
+        subst h
+        exact ⟨hl, hps⟩
+      · simp only [hc, if_false] at h
+        cases h
+    | _ => cases h
+  · rintro ⟨hl, hps⟩
+    exact ⟨_, hl, by simp [hps]⟩
+
 end CV.C14
